@@ -8,6 +8,7 @@ pub fn exec_oracle(kind: &str, fields: &[&str]) -> String {
     match kind {
         "S_C12" => oracle_c12(fields),
         "S_C03" => oracle_c03(fields),
+        "S_C04" => oracle_c04(fields),
         _ => "bad-case".to_string(),
     }
 }
@@ -281,4 +282,63 @@ fn oracle_c03(fields: &[&str]) -> String {
         }
         "oracle pass".to_string()
     })
+}
+
+// ----- C04: a macro invocation means its expansion --------------------------------------
+
+fn oracle_c04(fields: &[&str]) -> String {
+    let nres: usize = fields[0].parse().unwrap_or(0);
+    let mut ctx = Minimal::default();
+    ctx.register_op("add2", crate::exec::user_ctor("u:add2").unwrap());
+    for k in 0..nres {
+        ctx.register_resource(&unescape(fields[1 + 2 * k]), &unescape(fields[2 + 2 * k]));
+    }
+    let def = unescape(fields[1 + 2 * nres]);
+    let expect = unescape(fields[2 + 2 * nres]);
+    let data = parse_data(fields[3 + 2 * nres]);
+    let got = ctx.op(&def);
+    let (expect, deep) = match expect.strip_prefix("DEEP:") {
+        Some(e) => (e.to_string(), true),
+        None => (expect, false),
+    };
+    if deep && matches!(got, Err(Error::Recursion(_, _))) {
+        return "oracle pass".to_string();
+    }
+    if let Some(class) = expect.strip_prefix("ERR:") {
+        return match got {
+            Err(e) if err_class(&e) == class => "oracle pass".to_string(),
+            Err(e) => format!("oracle FAIL expected error {class}, got error {}", err_class(&e)),
+            Ok(_) => format!("oracle FAIL expected error {class}, got an operator"),
+        };
+    }
+    // the expansion, instantiated where no macro exists
+    let mut plain = Minimal::default();
+    plain.register_op("add2", crate::exec::user_ctor("u:add2").unwrap());
+    let want = match plain.op(&expect) {
+        Ok(op) => op,
+        Err(e) => return format!("oracle skip expansion not instantiable ({})", err_class(&e)),
+    };
+    let op = match got {
+        Ok(op) => op,
+        Err(e) => return format!("oracle FAIL invocation refused ({}) but its expansion {} is fine", err_class(&e), escape(&expect)),
+    };
+    for dir in [Fwd, Inv] {
+        let inverse = dir == Inv;
+        let mut a = data.clone();
+        let mut b = data.clone();
+        let na = ctx.apply(op, if inverse { Inv } else { Fwd }, &mut a).unwrap_or(usize::MAX);
+        let nb = plain.apply(want, if inverse { Inv } else { Fwd }, &mut b).unwrap_or(usize::MAX);
+        if na != nb || dump_data(&a) != dump_data(&b) {
+            return format!(
+                "oracle FAIL invocation differs from expansion {} ({}): n={} data={} expected n={} data={}",
+                escape(&expect),
+                if inverse { "inv" } else { "fwd" },
+                na,
+                dump_data(&a),
+                nb,
+                dump_data(&b)
+            );
+        }
+    }
+    "oracle pass".to_string()
 }
